@@ -46,7 +46,10 @@ func cmdSelftest(args []string) int {
 		}
 		var cands []*Scenario
 		for _, sc := range pl.scenarios {
-			if sc.Family != "load" && sc.Note != "canonical" {
+			// (scenarios with real-time faults, pipes or thinned-out hooks are not expected to
+			// repeat exactly: see realTime; neither are multi-producer jobs whose producers
+			// run many batches between two hooks)
+			if sc.Family != "load" && sc.Note != "canonical" && !realTime(sc) && !sparseProducers(sc) {
 				cands = append(cands, sc)
 			}
 		}
@@ -119,3 +122,7 @@ func cmdSelftest(args []string) int {
 }
 
 var _ = simcore.Mix
+
+func sparseProducers(sc *Scenario) bool {
+	return sc.Sites["prod"] > 1 || sc.Sites["write"] > 1
+}
